@@ -190,6 +190,7 @@ impl<R: BufRead> StreamDecryptor<R> {
             )
             .map_err(|e| io::Error::new(io::ErrorKind::InvalidInput, e))?;
         self.written += out.len() as u64;
+        crate::verif_event!("aead.dec.chunk", self.chunk_index, out.len(), self.written);
 
         self.buffer.unsplit(out);
 
@@ -256,6 +257,7 @@ impl<R: BufRead> StreamDecryptor<R> {
                 &mut final_auth_tag,
             )
             .map_err(|e| io::Error::new(io::ErrorKind::InvalidInput, e))?;
+        crate::verif_event!("aead.dec.final", self.written, self.chunk_index, 0);
 
         Ok(())
     }
